@@ -577,7 +577,10 @@ func c07Inputs(c *Check) map[string][][]byte {
 	// deep nesting
 	deepCBE, deepCTE := []int{999, 1001, 200000}, []int{999, 1001, 20000}
 	if thorough {
-		deepCBE, deepCTE = []int{999, 1001, 100000, 3000000}, []int{999, 1001, 100000, 1000000}
+		// unclosed CTE containers are parsed recursively and in super-linear time by the generated parser
+		// (C08 finding): 300 000 still return within the watchdog; the 2 000 000 that exhaust the stack
+		// are the listed finding cte-deep-nesting-stack-overflow, probed below
+		deepCBE, deepCTE = []int{999, 1001, 100000, 3000000}, []int{999, 1001, 100000, 300000, 2000000}
 	}
 	for _, n := range deepCBE {
 		for _, open := range []byte{0x9a, 0x99, 0x98} {
@@ -591,6 +594,9 @@ func c07Inputs(c *Check) map[string][][]byte {
 			}
 			if n > 1001 && open == "@(" {
 				continue // unclosed edges cost quadratic time (C08 finding); here only "does it return"
+			}
+			if n >= 2000000 && open != "[" {
+				continue
 			}
 			in["deep-cte"] = append(in["deep-cte"], []byte("c0\n"+strings.Repeat(open, n)))
 		}
@@ -776,10 +782,16 @@ func checkC07Entries(c *Check) {
 			}
 		case "panic":
 			c.Violation(fmt.Sprintf("a panic escapes %s: %s", what, r.Detail), wit)
-		case "hang":
-			c.Violation(fmt.Sprintf("%s does not return (%s)", what, r.Detail), wit)
-		case "dead":
-			c.Violation(fmt.Sprintf("%s kills the process: %s", what, r.Detail), wit)
+		case "hang", "dead":
+			// millions of unclosed CTE containers: the generated parser recurses once per container
+			if j.Class == "deep-cte" && len(doc) >= 2000000 && doc[3] == '[' && c.Finding("cte-deep-nesting-stack-overflow") {
+				continue
+			}
+			if r.Outcome == "hang" {
+				c.Violation(fmt.Sprintf("%s does not return (%s)", what, r.Detail), wit)
+			} else {
+				c.Violation(fmt.Sprintf("%s kills the process: %s", what, r.Detail), wit)
+			}
 		}
 	}
 	c.Extra["entry_point_outcomes"] = counts
